@@ -4,6 +4,14 @@ import json, os
 V = os.path.dirname(os.path.dirname(os.path.abspath(__file__)))
 
 CLAIMED = {
+ 'C05': dict(
+  text='Static decision of the structural clauses of the JSON/XDL round trip: for every byte value the text the encoder emits (extracted case '
+       'table and byte set of its control-character branch) is driven through the interpreted decoder transitions from the string-value and '
+       'the quoted-key state and must give back exactly that byte; controls/quote/backslash always escaped; default number formats carry '
+       '17/9 significant digits; reserve >= snprintf size >= widest text of every format used; non-finite guard; int path bounded to 9 digits; '
+       'encoder type dispatch exhaustive; final flush, file sink, BOM probe outside the chunk loop. Bit-exact number recovery is not decided.',
+  technique='extraction of the encoder escape table + byte sets, run through the abstractly interpreted decoder transition function for all 255 bytes; constant/width table evaluation; CFG must-pass (final flush); tag exhaustiveness',
+  ref='DESIGN.md section 3 C05'),
  'C07': dict(
   text='Abstract interpretation of the Xml::decode loop over every reachable (state, last state, open-element stack) and byte class: no '
        'popget() with only the root placeholder open, no top() of an empty stack, look-behind within consumed input (reports carry a witness '
